@@ -86,10 +86,8 @@ def check(tier, seed):
         res = run.run_once(exe, base + ['--emit-plan', str(r['run'])])
         plan = '\n'.join(res['out']) + '\n'
         rp = ThrReplayer(exe, disabled, STACK_IDS)
-        k1, d1 = rp.key_of(plan)
-        k2, _ = rp.key_of(plan)
-        if k1 != key or k2 != key:
-            rep.nonrepro.append('key=%s build=%s run=%d replayed as %s / %s' % (key, b, r['run'], k1, k2))
+        key, d1 = checks.confirm(rep, rp, plan, key, 'build=%s run=%d' % (b, r['run']))
+        if key is None:
             continue
         # make the schedule explicit, then minimise operations and preemptions together
         tmp = os.path.join(run.scratch_dir(), 'thr-%d.replay' % os.getpid())
@@ -100,7 +98,11 @@ def check(tier, seed):
         explicit = '\n'.join(res2['out']) + '\n'
         ke, _ = rp.key_of(explicit)
         start = explicit if ke == key else plan
-        small, used = checks.minimise(start, rp, key, max_replays=300)
+        if rep.minimised >= rep.max_minimise:
+            small, used = start, 0
+        else:
+            rep.minimised += 1
+            small, used = checks.minimise(start, rp, key, max_replays=300)
         k3, d3 = rp.key_of(small)
         if k3 != key:
             rep.nonrepro.append('key=%s minimised plan replayed as %s' % (key, k3))
